@@ -192,9 +192,11 @@ def pshape(e):
 def tiers(thorough):
     """[(name, constants, replay target)] of the exhaustive MC slices, simulation size, simulation replay cap."""
     if thorough:
-        return [("join", MC_JOIN, 12000), ("static", MC_STATIC, 6000), ("unary", dict(MC_UNARY, MaxDepth=2, DBVals=S(1), DBC=S()), 12000),
-                ("wide1", dict(MC_WIDE1, MatcherKinds=S("none", "eq", "neq", "empty", "reany", "reopt"), MatcherKindsB=S("none", "eq", "empty"), DBC=S()), 12000),
-                ("nest", MC_NEST, 4000), ("nestbin", MC_NESTBIN, 4000), ("cond", MC_COND, 4000)], 300, 30000
+        t_wide = dict(MC_WIDE1, MatcherKinds=S("none", "eq", "neq", "empty", "reopt"), MatcherKindsB=S("none", "empty"),
+                      DBC=S(), DBVals=S(1))
+        return [("join", MC_JOIN, 6000), ("static", MC_STATIC, 3000), ("unary", dict(MC_UNARY, MaxDepth=2, DBVals=S(1), DBC=S()), 6000),
+                ("wide1", t_wide, 6000), ("nest", MC_NEST, 2000), ("nestbin", MC_NESTBIN, 2000),
+                ("cond", dict(MC_COND, MaxStack=3), 3000)], 250, 15000
     q_join = dict(MC_JOIN, MatcherKinds=S("none", "eq"), AggLabelSets=S(S("a")))
     q_wide = dict(MC_WIDE1, MatcherKinds=S("none", "eq", "empty", "reopt"), MatcherKindsB=S("none", "empty"), CmpOps=S(">="), ArithOps=S("*"),
                   MatchSets=S(S(), S("a")), GroupIncs=S(S(), S("b")), DBC=S(), DBVals=S(1))
@@ -299,7 +301,7 @@ def run(ctx, prop, cases_override=None):
     cpath = write_ndjson(ctx.path("lflow_cases.ndjson"), uniq)
     # ---- EXEC
     tpath = ctx.path("lflow_trace.ndjson")
-    ndb = 800 if thorough else 80
+    ndb = 400 if thorough else 80
     ctx.vh("exec-lflow", cpath, tpath, env={"LF_NDB": str(ndb), "LF_NPREM": str(ndb), "LF_NCONC": "4" if thorough else "2"}, timeout=3000)
     trace = read_ndjson(tpath)
     if len(trace) != len(uniq):
@@ -319,7 +321,7 @@ def run(ctx, prop, cases_override=None):
         sub.cleanup()
         return off, len(part), j, sub.tlc_stats
 
-    with ThreadPoolExecutor(max_workers=int(os.environ.get("LF_JUDGES", "4"))) as ex:
+    with ThreadPoolExecutor(max_workers=int(os.environ.get("LF_JUDGES", "6" if thorough else "4"))) as ex:
         results = list(ex.map(judge, offs))
     for off, n, j, stats in results:
         ctx.tlc_stats += stats
